@@ -73,6 +73,27 @@ TogetherBad(colls, res, raised) ==
        \cup (IF IsPermutation(colls, res) THEN { "Permuted" } ELSE {})
 
 -----------------------------------------------------------------------------
+\* ---- sibling pairs
+(* Two collections built from the SAME base by the SAME operation with ONE differing
+   argument (a # b).  A recorded pair is
+       [names: <<na, nb>>, alone: <<va, vb>>, tog: <<.,.>>, togrev: <<.,.>>, derived, want, raised]
+   names   : the collection names (interned);  alone : the values computed one at a time
+   tog     : dask.compute(A, B);  togrev : dask.compute(B, A)
+   derived : the value of ONE collection that consumes both (a task receiving A and B),
+             want : the value it must have, composed from `alone`  (0, 0 = not observed)
+   Requirement: together == alone in both orders and inside a consumer; and - this is what the
+   results property needs, see KeySpaceMC!SameNameIsWrong - the names differ whenever the
+   values differ.  "SameName" is also reported as the CAUSE of wrong results.             *)
+SiblingBad(r) ==
+  IF r.raised THEN { "Raised" }
+  ELSE LET differ == r.alone[1] # r.alone[2]
+           same   == r.names[1] = r.names[2]
+           bad    == (IF r.tog = r.alone /\ r.togrev = <<r.alone[2], r.alone[1]>> THEN {} ELSE { "Together" })
+                     \cup (IF r.derived = r.want THEN {} ELSE { "Derived" })
+                     \cup (IF differ /\ same THEN { "SameName" } ELSE {})
+       IN bad
+
+-----------------------------------------------------------------------------
 \* ---- model of dask.compute on a tuple (each collection: one output key `out` among its keys)
 CONSTANT Impl
 
